@@ -50,3 +50,139 @@ CONTRACTS = {
         rank={'arr': 1, 'out': 1},
     ),
 }
+
+_OUT = 'output arrays are "the array in which to store the unpacked" values: one row per input record (3 columns for vector fields)'
+CONTRACTS.update({
+    'abacusnbody/data/bitpacked.py:_unpack_rvint': dict(
+        params={'intdata': 'arr', 'boxsize': 'opaque', 'posout': 'optarr', 'velout': 'optarr'},
+        rank={'intdata': 2, 'posout': 2, 'velout': 2},
+        requires=[('intdata.shape[1] >= 3', 'unpack_rvint reshapes the rvint data to (-1, 3)'),
+                  ('posout.shape[0] >= len(intdata)', _OUT), ('posout.shape[1] >= 3', _OUT),
+                  ('velout.shape[0] >= len(intdata)', _OUT), ('velout.shape[1] >= 3', _OUT)]),
+    'abacusnbody/data/bitpacked.py:_unpack_pids': dict(
+        params={'packed': 'arr', 'box': 'opaque', 'ppd': 'opaque', 'pid': 'optarr', 'lagr_pos': 'optarr', 'tagged': 'optarr',
+                'density': 'optarr', 'lagr_idx': 'optarr', 'float_dtype': 'opaque'},
+        rank={'packed': 1, 'pid': 1, 'tagged': 1, 'density': 1, 'lagr_pos': 2, 'lagr_idx': 2},
+        requires=[('len(pid) >= len(packed)', _OUT), ('len(tagged) >= len(packed)', _OUT), ('len(density) >= len(packed)', _OUT),
+                  ('lagr_pos.shape[0] >= len(packed)', _OUT), ('lagr_pos.shape[1] >= 3', _OUT),
+                  ('lagr_idx.shape[0] >= len(packed)', _OUT), ('lagr_idx.shape[1] >= 3', _OUT)]),
+    'abacusnbody/data/pack9.py:_unpack_pack9': dict(
+        params={'data': 'arr', 'boxsize': 'opaque', 'velzspace_to_kms': 'opaque', 'posout': 'optarr', 'velout': 'optarr', 'dtype': 'opaque'},
+        rank={'data': 2, 'posout': 2, 'velout': 2},
+        requires=[('data.shape[1] >= 9', 'pack9 records are 9 bytes'),
+                  ('posout.shape[0] >= len(data)', _OUT), ('posout.shape[1] >= 3', _OUT),
+                  ('velout.shape[0] >= len(data)', _OUT), ('velout.shape[1] >= 3', _OUT)]),
+    'abacusnbody/data/pack9.py:_expand_to_short': dict(
+        params={'c': 'arr', 's': 'arr'}, rank={'c': 1, 's': 1},
+        requires=[('len(c) >= 9', 'a pack9 record (row of the (N, 9) byte array)'), ('len(s) >= 6', 'caller allocates sh = np.empty(6)')]),
+    'abacusnbody/analysis/tsc.py:_zeros_parallel': dict(params={'shape': 'shape', 'dtype': 'opaque'}),
+    'abacusnbody/analysis/tsc.py:_tsc_scatter': dict(
+        params={'positions': 'arr', 'density': 'arr', 'boxsize': 'opaque', 'weights': 'optarr', 'offset': 'opaque'},
+        rank={'positions': 2, 'density': 3, 'weights': 1},
+        requires=[('positions.shape[1] >= 3', 'pos : "ndarray of shape (n,3)"'), ('len(weights) >= len(positions)', 'weights : "ndarray of shape (n,)"'),
+                  ('density.shape[0] >= 3', 'derived (C06-R6): with an offset of up to one cell, i+1 wraps once only if the axis has >= 3 cells'),
+                  ('density.shape[1] >= 3', 'derived (C06-R6): with an offset of up to one cell, i+1 wraps once only if the axis has >= 3 cells')],
+        alternatives=[[('density.shape[2] >= 3', 'derived (C06-R6) for a 3-D grid')], [('density.shape[2] == 1', 'a one-cell-thick third axis is the 2-D case')]],
+        float_bounds=[('round(px)', '0', 'gx + 1', '"Expects particles in domain [0,boxsize)", offset within one cell: 0 <= round(p) <= g+1 (L6)'),
+                      ('round(py)', '0', 'gy + 1', '"Expects particles in domain [0,boxsize)", offset within one cell: 0 <= round(p) <= g+1 (L6)'),
+                      ('round(pz)', '0', 'gz + 1', '"Expects particles in domain [0,boxsize)", offset within one cell: 0 <= round(p) <= g+1 (L6)')]),
+    'abacusnbody/analysis/cic.py:cic_serial': dict(
+        params={'positions': 'arr', 'density': 'arr', 'boxsize': 'opaque', 'weights': 'optarr'},
+        rank={'positions': 2, 'density': 3, 'weights': 1},
+        requires=[('positions.shape[1] >= 3', 'particle positions of shape (N, 3)'), ('len(weights) >= len(positions)', 'one weight per particle'),
+                  ('density.shape[0] >= 2', 'derived: i+1 <= g+1 wraps once only if the axis has >= 2 cells'),
+                  ('density.shape[1] >= 2', 'derived: i+1 <= g+1 wraps once only if the axis has >= 2 cells')],
+        alternatives=[[('density.shape[2] >= 2', 'derived for a 3-D grid')], [('density.shape[2] == 1', 'one-cell-thick third axis: the 2-D case')]],
+        float_bounds=[('round(px)', '0', 'gx', 'positions in [0, boxsize]: 0 <= round(p) <= g (L6)'),
+                      ('round(py)', '0', 'gy', 'positions in [0, boxsize]: 0 <= round(p) <= g (L6)'),
+                      ('round(pz)', '0', 'gz', 'positions in [0, boxsize]: 0 <= round(p) <= g (L6)')]),
+})
+
+_MESH = 'weights : "array of shape (n1d, n1d, n1d//2+1) containing the power spectrum modes"'
+_EDGES = 'edge arrays have at least one bin'
+_BIN = dict(
+    rank={'kedges': 1, 'muedges': 1, 'weights': 3, 'poles': 1},
+    requires=[('weights.shape[0] >= n1d', _MESH), ('weights.shape[1] >= n1d', _MESH), ('weights.shape[2] >= n1d // 2 + 1', _MESH),
+              ('len(kedges) >= 2', _EDGES), ('n1d >= 0', 'mesh size')],
+    cursor_reasons={'muedges2': 'mu^2 = k^2/|k|^2 <= 1 <= muedges[-1]^2 ("mu ranges from 0 to 1"): the mu search stops before the last edge'},
+)
+CONTRACTS.update({
+    'abacusnbody/analysis/power_spectrum.py:bin_kmu': dict(
+        params={'n1d': 'int', 'L': 'opaque', 'kedges': 'arr', 'muedges': 'arr', 'weights': 'arr', 'poles': 'arr', 'dtype': 'opaque', 'fourier': 'bool', 'nthread': 'int'},
+        rank=_BIN['rank'], requires=_BIN['requires'] + [('len(muedges) >= 2', _EDGES)], cursor_reasons=_BIN['cursor_reasons']),
+    'abacusnbody/analysis/power_spectrum.py:bin_kppi': dict(
+        params={'n1d': 'int', 'L': 'opaque', 'kedges': 'arr', 'pimax': 'opaque', 'Npi': 'int', 'weights': 'arr', 'dtype': 'opaque', 'fourier': 'bool', 'nthread': 'int'},
+        rank=_BIN['rank'], requires=_BIN['requires'] + [('Npi >= 1', 'Npi : "number of bins of pi"')]),
+    'abacusnbody/analysis/power_spectrum.py:expand_poles_to_3d': dict(
+        params={'k_ell': 'arr', 'P_ell': 'arr', 'n1d': 'int', 'L': 'opaque', 'poles': 'arr', 'dtype': 'opaque'},
+        rank={'k_ell': 1, 'P_ell': 2, 'poles': 1},
+        requires=[('len(k_ell) >= 2', 'k_ell : equidistant wavenumbers (the assert compares the first and last spacing)'),
+                  ('P_ell.shape[0] >= len(poles)', 'P_ell : one row of multipole values per requested pole')]),
+    'abacusnbody/analysis/power_spectrum.py:linear_interp': dict(
+        params={'xd': 'opaque', 'x': 'arr', 'y': 'arr'}, rank={'x': 1, 'y': 1},
+        requires=[('len(x) >= 2', '"x entries are equidistant and monotonically increasing"'), ('len(y) == len(x)', 'y values at each x')],
+        float_bounds=[('np.int64(f)', '0', 'len(x) - 2', '"Assumes x entries are equidistant and monotonically increasing": x[0] < xd < x[-1] gives 0 <= floor((xd-x0)/dx) <= len-2')]),
+    'abacusnbody/analysis/power_spectrum.py:get_delta_mu2': dict(
+        params={'delta': 'arr', 'n1d': 'int', 'dtype_c': 'opaque', 'dtype_f': 'opaque'}, rank={'delta': 3},
+        requires=[('delta.shape[0] >= n1d', 'delta : rfft mesh of shape (n1d, n1d, n1d//2+1)'), ('delta.shape[1] >= n1d', 'delta : rfft mesh'),
+                  ('delta.shape[2] >= n1d // 2 + 1', 'delta : rfft mesh')]),
+    'abacusnbody/analysis/power_spectrum.py:shift_field_fft': dict(
+        params={'field_fft': 'arr', 'field_shift_fft': 'arr', 'n1d': 'int', 'L': 'opaque', 'd': 'opaque', 'dtype': 'opaque'},
+        rank={'field_fft': 3, 'field_shift_fft': 3},
+        requires=[('field_fft.shape[0] >= n1d', 'both fields are rfftn of (n1d, n1d, n1d) meshes'), ('field_fft.shape[1] >= n1d', 'rfftn mesh'),
+                  ('field_fft.shape[2] >= n1d // 2 + 1', 'rfftn mesh'), ('field_shift_fft.shape[0] >= n1d', 'rfftn mesh'),
+                  ('field_shift_fft.shape[1] >= n1d', 'rfftn mesh'), ('field_shift_fft.shape[2] >= n1d // 2 + 1', 'rfftn mesh')]),
+})
+
+_HOST = 'per-host arrays are columns of one table (gen_gals passes halos_array / subsample columns): equal lengths'
+_CUR = ('cursor of a tracer stays inside [gstart[tid,c], gstart[tid+1,c]) because count and fill pass agree (C10-R4) and the arrays have '
+        'gstart[-1,c] entries (L12)')
+def _eq(names, ref):
+    return [(f'len({n}) == len({ref})', _HOST) for n in names]
+CONTRACTS.update({
+    'abacusnbody/hod/GRAND_HOD.py:gen_cent': dict(
+        params={'pos': 'arr', 'vel': 'arr', 'mass': 'arr', 'ids': 'arr', 'multis': 'arr', 'randoms': 'arr', 'vdev': 'arr', 'deltac': 'arr', 'fenv': 'arr',
+                'shear': 'arr', 'LRG_hod_dict': 'opaque', 'ELG_hod_dict': 'opaque', 'QSO_hod_dict': 'opaque', 'rsd': 'bool', 'inv_velz2kms': 'opaque',
+                'lbox': 'opaque', 'want_LRG': 'bool', 'want_ELG': 'bool', 'want_QSO': 'bool', 'Nthread': 'int', 'origin': 'optarr'},
+        rank={'pos': 2, 'vel': 2, 'vdev': 2, 'mass': 1, 'ids': 1, 'multis': 1, 'randoms': 1, 'deltac': 1, 'fenv': 1, 'shear': 1, 'origin': 1},
+        requires=_eq(['pos', 'vel', 'ids', 'multis', 'randoms', 'vdev', 'deltac', 'fenv', 'shear'], 'mass') +
+        [('pos.shape[1] >= 3', 'positions (N,3)'), ('vel.shape[1] >= 3', 'velocities (N,3)'), ('vdev.shape[1] >= 3', 'velocity deviates (N,3)'),
+         ('len(origin) >= 3', 'light cone origin is a 3-vector'), ('Nthread >= 1', 'number of threads')],
+        value_indices={'j1': _CUR, 'j2': _CUR, 'j3': _CUR}),
+    'abacusnbody/hod/GRAND_HOD.py:gen_sats': dict(
+        params={'ppos': 'arr', 'pvel': 'arr', 'hvel': 'arr', 'hmass': 'arr', 'hid': 'arr', 'weights': 'arr', 'randoms': 'arr', 'hdeltac': 'arr', 'hfenv': 'arr',
+                'hshear': 'arr', 'enable_ranks': 'bool', 'ranks': 'arr', 'ranksv': 'arr', 'ranksp': 'arr', 'ranksr': 'arr', 'ranksc': 'arr',
+                'LRG_hod_dict': 'opaque', 'ELG_hod_dict': 'opaque', 'QSO_hod_dict': 'opaque', 'rsd': 'bool', 'inv_velz2kms': 'opaque', 'lbox': 'opaque',
+                'Mpart': 'opaque', 'want_LRG': 'bool', 'want_ELG': 'bool', 'want_QSO': 'bool', 'Nthread': 'int', 'origin': 'optarr', 'keep_cent': 'arr'},
+        rank={'ppos': 2, 'pvel': 2, 'hvel': 2, 'hmass': 1, 'hid': 1, 'weights': 1, 'randoms': 1, 'hdeltac': 1, 'hfenv': 1, 'hshear': 1, 'ranks': 1,
+              'ranksv': 1, 'ranksp': 1, 'ranksr': 1, 'ranksc': 1, 'keep_cent': 1, 'origin': 1},
+        requires=_eq(['ppos', 'pvel', 'hvel', 'hid', 'weights', 'randoms', 'hdeltac', 'hfenv', 'hshear', 'ranks', 'ranksv', 'ranksp', 'ranksr', 'ranksc', 'keep_cent'], 'hmass') +
+        [('ppos.shape[1] >= 3', 'positions (N,3)'), ('pvel.shape[1] >= 3', 'velocities (N,3)'), ('hvel.shape[1] >= 3', 'host velocities (N,3)'),
+         ('len(origin) >= 3', 'light cone origin is a 3-vector'), ('Nthread >= 1', 'number of threads')],
+        value_indices={'j1': _CUR, 'j2': _CUR, 'j3': _CUR}),
+    'abacusnbody/hod/GRAND_HOD.py:fast_concatenate': dict(
+        params={'array1': 'arr', 'array2': 'arr', 'Nthread': 'int'}, rank={'array1': 1, 'array2': 1},
+        requires=[('Nthread >= 1', 'number of threads')],
+        float_bounds=[('np.floor(Nthread * N1 / (N1 + N2))', '0', 'Nthread - 1', 'floor(T*N1/(N1+N2)) <= T-1 for N2 > 0 (real arithmetic; N2 == 0 returns earlier)')]),
+    'abacusnbody/hod/GRAND_HOD.py:getPointsOnSphere': dict(
+        params={'nPoints': 'int', 'Nthread': 'int', 'seed': 'optarr'}, rank={'seed': 1},
+        requires=[('nPoints >= 0', 'number of points'), ('Nthread >= 1', 'number of threads'), ('len(seed) >= Nthread', 'one seed per thread')]),
+})
+_NFW = ('experimental NFW path: per-satellite arrays are np.repeat(<per-halo array>, num_sat) with num_sat.sum() entries, the block table ends at '
+        'num_sat.sum(), rd_pos has one row per satellite and NFW_draw is "a long array of random numbers" (at least one per satellite)')
+CONTRACTS.update({
+    'abacusnbody/hod/GRAND_HOD.py:compute_fast_NFW': dict(
+        params={'NFW_draw': 'arr', 'h_id': 'arr', 'x_h': 'arr', 'y_h': 'arr', 'z_h': 'arr', 'vx_h': 'arr', 'vy_h': 'arr', 'vz_h': 'arr', 'vrms_h': 'arr',
+                'c': 'arr', 'M': 'arr', 'Rvir': 'arr', 'rd_pos': 'arr', 'num_sat': 'arr', 'f_sigv': 'opaque', 'vel_sat': 'opaque', 'Nthread': 'int',
+                'exp_frac': 'opaque', 'exp_scale': 'opaque', 'nfw_rescale': 'opaque'},
+        rank={'rd_pos': 2},
+        requires=[('Nthread >= 1', 'number of threads'), ('rd_pos.shape[1] >= 3', 'random unit vectors (N,3)')],
+        value_indices={'i': _NFW, 'ind': _NFW, 'tid': 'hstart has Nthread+1 entries', 'tid + 1': 'hstart has Nthread+1 entries', '0': _NFW}),
+    'abacusnbody/hod/GRAND_HOD.py:gen_sats_nfw': dict(
+        params={'NFW_draw': 'arr', 'hpos': 'arr', 'hvel': 'arr', 'hmass': 'arr', 'hid': 'arr', 'hdeltac': 'arr', 'hfenv': 'arr', 'hshear': 'arr', 'hvrms': 'arr',
+                'hc': 'arr', 'hrvir': 'arr', 'LRG_hod_dict': 'opaque', 'ELG_hod_dict': 'opaque', 'QSO_hod_dict': 'opaque', 'want_LRG': 'bool', 'want_ELG': 'bool',
+                'want_QSO': 'bool', 'rsd': 'bool', 'inv_velz2kms': 'opaque', 'lbox': 'opaque', 'keep_cent': 'arr', 'vel_sat': 'opaque', 'Nthread': 'int'},
+        rank={'hpos': 2, 'hvel': 2, 'hmass': 1, 'hid': 1, 'hdeltac': 1, 'hfenv': 1, 'hshear': 1, 'keep_cent': 1},
+        requires=_eq(['hpos', 'hvel', 'hid', 'hdeltac', 'hfenv', 'hshear', 'keep_cent'], 'hmass') +
+        [('hpos.shape[1] >= 3', 'positions (N,3)'), ('hvel.shape[1] >= 3', 'velocities (N,3)'), ('Nthread >= 1', 'number of threads')]),
+})
